@@ -6,20 +6,49 @@ from checklib import Check, Family
 import build, irparse
 
 c = Check('C19')
-# thread-local inventory of the whole library, from freshly emitted IR (every mutable static must be per thread or
-# belong to the experiment dispatcher / the logger mutex)
+# thread-local inventory of the whole library, from freshly emitted IR: every mutable static that some function can write
+# must be per thread, unless it belongs to the experiment dispatcher's own unit (src/cimba.c) or is a mutex
 lib = build.lib_ir(c.d)
 M = irparse.parse(lib)
 mutable = {n: g for n, g in M.globals.items() if not g['const'] and not g['external'] and not n.startswith('@.str')}
 shared = sorted(n for n, g in mutable.items() if not g['tls'])
-allowed = {'@cmg_next_trial_idx', '@cmg_experiment_arr', '@cmg_trial_struct_sz', '@cmg_trial_func', '@cmg_total_trials', '@cmi_logger_mutex',
-           '@sum_tolerance', '@symbol_thin', '@symbol_empty', '@symbol_newline', '@symbol_full', '@symbol_half', '@symbol_bar'}
-bad = [n for n in shared if n.split('.')[0] not in allowed and n not in allowed]
+# which of them can be written at run time, and where are they defined?  (per-unit IR emitted by build.lib_ir)
+import re, glob
+def_unit, written = {}, set()
+for ll in sorted(glob.glob(os.path.join(c.d, 'ir', '*.ll'))):
+    unit = os.path.basename(ll)[:-3]
+    if unit == 'all':
+        continue
+    infn = False
+    for line in open(ll):
+        if line.startswith('define '):
+            infn = True
+            continue
+        if line.startswith('}'):
+            infn = False
+            continue
+        if not infn:
+            m = re.match(r'(@[\w.$]+) = ', line)
+            if m and ' external ' not in line and 'declare' not in line:
+                def_unit.setdefault(m.group(1), unit)
+            continue
+        for g in re.findall(r'@[\w.$]+', line):
+            # anything but being the address operand of a plain load counts as a possible write (store, call argument, address taken)
+            if re.search(r'= load [^,]+, [^,]*\* ' + re.escape(g) + r'(,|\s|$)', line) and line.count(g) == 1:
+                continue
+            written.add(g)
+def unit_of(n):
+    return def_unit.get(n) or def_unit.get(n.split('.')[0]) or '?'
+def is_mutex(n):
+    return 'pthread_mutex' in str(mutable[n].get('type', '')) or n.endswith('_mutex')
+# exempt: the experiment dispatcher's own unit (its globals are shared by design; their use is what the interleaving
+# families below verify), mutexes, and statics that no function ever writes (initialised data)
+bad = [n for n in shared if unit_of(n) != 'cimba' and not is_mutex(n) and (n in written or n.split('.')[0] in written)]
 viols = []
 if bad:
     viols.append({'family': 'tls-inventory', 'kind': 'assert', 'label': 'mutable library state shared between worker threads', 'msg': 'non-thread-local mutable globals: ' + ', '.join(bad),
                   'where': 'linked IR', 'tags': {}, 'inputs': {}, 'replay': {'confirmed': True, 'note': 'syntactic fact about the emitted IR'}})
-c.add_part({'part': 'thread-local-inventory', 'engine': 'IR inspection', 'thread_local': sorted(n for n, g in mutable.items() if g['tls']), 'shared': shared, 'unexpected_shared': bad},
+c.add_part({'part': 'thread-local-inventory', 'engine': 'IR inspection', 'thread_local': sorted(n for n, g in mutable.items() if g['tls']), 'shared': shared, 'shared_by_unit': {n: unit_of(n) for n in shared}, 'never_written': [n for n in shared if n not in written], 'unexpected_shared': bad},
            1, 0 if bad else 1, violations=viols, states=1, transitions=1)
 
 fams = []
